@@ -49,6 +49,7 @@ def lean_ty(t: str) -> str:
         "A2(Int)": "Int → Int → Int", "A2(Val)": "Int → Int → Val",
         "L(Int)": "List Int", "L(Val)": "List Val", "LL(Val)": "List (List Val)", "LL(Int)": "List (List Int)",
         "Red": "Val → Val → Int → Val × Int", "Red2": "Val → Val → Val",
+        "LA(Val)": "List (List Val)", "V(Val)": "List Val", "S(Val)": "(Int → Val) × Int",
     }[t]
 
 
@@ -59,6 +60,7 @@ class Var:
     lens: tuple = ()          # Lean names of the length variable(s) for arrays
     width: Optional[tuple] = None   # (signed, bits) of an integer array
     opt: Optional[str] = None       # Lean name of the `is_some` flag for Optional parameters
+    guard: Optional[str] = None     # Lean Bool that must hold for a read of this variable to be defined (loop variable after its loop)
 
 
 @dataclass
@@ -123,6 +125,9 @@ class LoopTranslator:
                     return f"({self.consts[e.id]} : Int)", "Int"
                 raise TranslateError(f"{self.fname}: unknown name {e.id}")
             v = cx.env[e.id]
+            if v.guard is not None:
+                # Python leaves a loop variable unbound when the loop did not run: reading it then is an error (flagged)
+                self.set_err(cx, v.guard)
             return v.lean, v.ty
         if isinstance(e, ast.Constant):
             if isinstance(e.value, bool):
@@ -221,6 +226,14 @@ class LoopTranslator:
             v = cx.env.get(e.value.id)
             if v is None:
                 raise TranslateError(f"{self.fname}: unknown array {e.value.id}")
+            if v.ty in ("LA(Val)", "V(Val)") and not isinstance(e.slice, (ast.Slice, ast.Tuple)):
+                i_s, i_t = self.expr(cx, e.slice)
+                if i_t != "Int":
+                    raise TranslateError(f"{self.fname}: non-integer index")
+                pos = f"(normI ({v.lean}.length : Int) {i_s}).toNat"
+                if v.ty == "LA(Val)":
+                    return f"({v.lean}.getD {pos} [])", "V(Val)"
+                return f"({v.lean}.getD {pos} Val.nan)", "Val"
             if v.ty.startswith("A2("):
                 if not (isinstance(e.slice, ast.Tuple) and len(e.slice.elts) == 2):
                     raise TranslateError(f"{self.fname}: 2-d array needs two indices")
@@ -260,6 +273,8 @@ class LoopTranslator:
                     return f"(min {a} {b})", "Int"
             if isinstance(f, ast.Name) and f.id == "len" and len(e.args) == 1 and isinstance(e.args[0], ast.Name):
                 v = cx.env.get(e.args[0].id)
+                if v is not None and v.ty in ("LA(Val)", "V(Val)"):
+                    return f"({v.lean}.length : Int)", "Int"
                 if v is None or not v.lens:
                     raise TranslateError(f"{self.fname}: len() of {ast.unparse(e.args[0])}")
                 return v.lens[0], "Int"
@@ -296,6 +311,8 @@ class LoopTranslator:
         for kw in call.keywords:
             if kw.arg == "dtype":
                 v = kw.value
+                if isinstance(v, ast.Attribute) and v.attr == "dtype" and not (isinstance(v.value, ast.Name) and v.value.id == "np"):
+                    return (self.float_ty, None)      # the element type of the values
                 name = v.attr if isinstance(v, ast.Attribute) else v.value if isinstance(v, ast.Constant) else \
                     v.id if isinstance(v, ast.Name) else None
                 if name in DTYPE_BITS:
@@ -644,7 +661,14 @@ class LoopTranslator:
                     return res
                 continue
             if isinstance(s, ast.For):
-                self.for_stmt(cx, s, in_loop)
+                res = self.for_stmt(cx, s, in_loop)
+                if res is not None:
+                    # the loop may have returned: its recorded value wins, otherwise everything that follows
+                    if in_loop is not None:
+                        raise TranslateError(f"{self.fname}: return inside a nested loop")
+                    err_now = cx.env["err!"].lean
+                    tail = self.run(cx, rest, in_loop, conts)
+                    return f"(match {res}.ret with | some r => (r, {err_now}) | none => {tail})"
                 continue
             if isinstance(s, ast.While):
                 self.while_stmt(cx, s, in_loop)
@@ -677,6 +701,9 @@ class LoopTranslator:
             return "RAISE"
         raise TranslateError(f"{self.fname}: {kind} outside a loop")
 
+    def _merge_loop_ret(self, t):
+        self.ret_ty = self._merge_ret(t)
+
     def _merge_ret(self, t):
         old = getattr(self, "ret_ty", None)
         if old is not None and old != t:
@@ -693,9 +720,22 @@ class LoopTranslator:
             if len(declared) != len(elts):
                 raise TranslateError(f"{self.fname}: return arity differs from the declaration")
             for e, want in zip(elts, declared):
+                if want.startswith("S("):
+                    if isinstance(e, ast.Subscript) and isinstance(e.slice, ast.Slice) and isinstance(e.value, ast.Name) \
+                            and e.slice.lower is None and e.slice.step is None and e.slice.upper is not None:
+                        v = cx.env[e.value.id]
+                        u, ut = self.expr(cx, e.slice.upper)
+                        parts.append(f"({v.lean}, {u})")
+                    elif isinstance(e, ast.Name) and e.id in cx.env and cx.env[e.id].ty.startswith("A("):
+                        v = cx.env[e.id]
+                        parts.append(f"({v.lean}, {v.lens[0]})")
+                    else:
+                        raise TranslateError(f"{self.fname}: sliced-array return shape")
+                    tys.append("(" + lean_ty(want) + ")")
+                    continue
                 s_, t_ = self.expr(cx, e)
                 parts.append(self.coerce(s_, t_, want))
-                tys.append(lean_ty(want))
+                tys.append(lean_ty(want) if "→" not in lean_ty(want) else "(" + lean_ty(want) + ")")
             return "(" + ", ".join(parts) + ")" if len(parts) > 1 else parts[0], " × ".join(tys)
         for e in elts:
             # labels[:n] style returns: (array, length)
@@ -923,8 +963,13 @@ class LoopTranslator:
             cx.lets.append(f"let {nm} : {lean_ty(v.ty)} := {res}.{fld}")
             cx.env[py] = Var(nm, v.ty, v.lens, v.width, v.opt)
         if has_ret:
-            # a return inside the loop: the function's value is the recorded one if the loop stopped early
-            self.pending_ret = (res, ret_ty)
+            self._merge_loop_ret(ret_ty)
+        read_later = any(isinstance(m, ast.Name) and m.id == s.target.id and isinstance(m.ctx, ast.Load)
+                         and getattr(m, "lineno", 0) > getattr(s, "end_lineno", 10 ** 9) for m in ast.walk(self.fn_ast))
+        if elem_t == "Int" and outer_loop is None and read_later:
+            # Python keeps the loop variable after the loop (its last value); unbound if the loop did not run
+            cx.env[s.target.id] = Var(f"(({it_s}).getLastD (0 : Int))", "Int", guard=f"(!({it_s}).isEmpty)")
+        return res if has_ret else None
 
     def desugar_enumerate(self, cx: Ctx, s: ast.For) -> ast.For:
         """for i, x in enumerate(a)            ->  for i in range(len(a)): x = a[i]
@@ -1067,6 +1112,7 @@ class LoopTranslator:
             sig.append(f"({lp} : {lean_ty(t)})")
             cx.env[p] = Var(lp, t, lens, (True, 64) if t == "A(Int)" else None, opt)
         cx.env["err!"] = Var("false", "Bool")
+        self.fn_ast = fn
         self.views = []
         self.uses_div = False
         self.extra_params = {}
@@ -1091,11 +1137,6 @@ class LoopTranslator:
                                 and getattr(sub, "lineno", 0) > line:
                             raise TranslateError(f"{self.fname}: store into {sub.value.id} after the view {view} of {base} was taken")
         ret_ty = self.ret_ty
-        if self.pending_ret is not None:
-            res, rty = self.pending_ret
-            if rty != ret_ty:
-                raise TranslateError(f"{self.fname}: return types differ: {rty} / {ret_ty}")
-            esc = f"(match {res}.ret with | some r => (r, {cx.env['err!'].lean}) | none => {esc})"
         txt = "".join(d + "\n" for d in cx.defs)
         txt += (f"def {lean_name} (k : Kind) " + " ".join(sig) + f" : ({ret_ty}) × Bool :=\n"
                 + "".join(f"  {l}\n" for l in cx.lets) + f"  {esc}\n")
@@ -1163,7 +1204,7 @@ def first_non_null_dispatch(tree: ast.AST) -> str:
 TRANSLATED: dict = {}
 
 # declared iteration bounds of `while` loops (python expression over the function's variables)
-WHILE_FUEL = {"min_or_max_and_position": "len(arr)"}
+WHILE_FUEL = {"min_or_max_and_position": "len(arr)", "monotonic_factorization": "len(arr_list)"}
 
 # function -> (module key, python name, declared parameter types)
 LOOPS = {
@@ -1199,6 +1240,8 @@ LOOPS = {
                           {"group_key": "A(Int)", "values": "A(F)", "times": "A(Int)", "halflife": "Int", "ngroups": "Int",
                            "mask": "OptA(Bool)"}, "F"),
     "weight_code_sum": ("fact", "_weight_code_sum", {"codes": "A(Int)", "weights": "A(Int)"}, "Val", ["Int"]),
+    "monotonic_factorization": ("fact", "_monotonic_factorization", {"arr_list": "LA(Val)", "total_len": "Int"}, "Val",
+                                ["Int", "A(Int)", "S(Val)"]),
     "first_non_null_float": ("util", "_get_first_non_null", {"arr": "A(Val)"}, "Val", ["Int", "Val"]),
     "first_non_null_int": ("util", "jit_get_first_non_null/f#0", {"arr": "A(Val)"}, "Val", ["Int", "Val"]),
     "nb_reduce": ("nanops", "_nb_reduce", {"reduce_func": "Red2", "arr": "A(Val)", "skipna": "Bool", "initial_value": "OptVal"}, "Val",
